@@ -96,7 +96,7 @@ class SafeLearner(Learner):
             #now do a small "test" to determine the major order.
             #n_cols will always be >= 2 so we know we can distinguish
             class Batch(list): is_batch=True
-            pred   = predictor(Batch([context[0]]),Batch([actions[0]]))
+            pred   = predictor(Batch([context[0]]) if context is not None else None,Batch([actions[0]]))
             n_rows = 1
 
         return 'row' if len(pred) == n_rows else 'col'
